@@ -5,7 +5,7 @@
    universes that are prefix-free (fixed-length canonical addresses; denom sets such as
    {uaura, uusdc, ibc/...}) and the collision is exhibited.  The world-level half (record = pair's
    self-description, true decimals, only registered natives / live cw20s) is stated over World/. *)
-From HT Require Import Base.Prelude Reg.Registry Proofs.RegistryProofs.
+From HT Require Import Base.Prelude Num.Arith Amm.Formulas Amm.Guards Reg.Registry World.World Proofs.RegistryProofs Proofs.FactoryProofs.
 
 Theorem C16_sym : forall a b : bytes, pair_key a b = pair_key b a.
 Proof. exact pair_key_sym. Qed.
@@ -55,6 +55,50 @@ Example C16_nonvacuous :
   reg_lookup (reg_run [(ua, ub, 7); (ub, ua, 8); (t, t, 9); (t, ua, 10)]) ub t = None.
 Proof. vm_compute. repeat split; reflexivity. Qed.
 
+(* ---- world level: the factory's CreatePair and Pair query on the world model ---- *)
+(* creation succeeds only for the owner, two different assets, an unregistered set, registered native
+   denoms / live cw20s whose true decimals are recorded; the record equals the new pair's description *)
+Theorem C16_create_facts : forall w c a0 a1 wl m0 m1 cm ld w',
+  fac_create_pair w c a0 a1 wl m0 m1 cm ld = Ok w' ->
+  c = w_owner w /\ asset_eqb a0 a1 = false /\ reg_find (w_reg w) a0 a1 = None /\
+  exists d0 d1, asset_decimals w a0 = Ok d0 /\ asset_decimals w a1 = Ok d1 /\
+    let cr := match cm with Some x => x | None => DEFAULT_COMMISSION end in
+    let r := mkRec a0 a1 (w_next w) (w_next w + 1) d0 d1 wl m0 m1 cr in
+    cr <= D /\
+    w_reg w' = w_reg w ++ [r] /\
+    w_pairs w' (w_next w) = Some (mkPair a0 a1 d0 d1 (w_next w + 1) wl m0 m1 cr (w_fac w)) /\
+    (forall q, q <> w_next w -> w_pairs w' q = w_pairs w q) /\
+    w_next w' = w_next w + 2 /\ w_fac w' = w_fac w /\ w_owner w' = w_owner w /\ w_natives w' = w_natives w /\
+    w_bank w' = w_bank w.
+Proof. exact fac_create_pair_facts. Qed.
+Theorem C16_world_duplicate_rejected : forall w c a0 a1 wl m0 m1 cm ld r,
+  reg_find (w_reg w) a0 a1 = Some r ->
+  (exists e, fac_create_pair w c a0 a1 wl m0 m1 cm ld = Err e) /\ (exists e, fac_create_pair w c a1 a0 wl m0 m1 cm ld = Err e).
+Proof. exact fac_create_pair_duplicate_rejected. Qed.
+Theorem C16_world_same_asset_rejected : forall w c a wl m0 m1 cm ld, exists e, fac_create_pair w c a a wl m0 m1 cm ld = Err e.
+Proof. exact fac_create_pair_same_asset_rejected. Qed.
+Theorem C16_world_lookup_either_order : forall w c a0 a1 wl m0 m1 cm ld w',
+  RegOK w -> fac_create_pair w c a0 a1 wl m0 m1 cm ld = Ok w' ->
+  exists r, reg_find (w_reg w') a0 a1 = Some r /\ reg_find (w_reg w') a1 a0 = Some r /\ f_pair r = w_next w /\
+            f_a0 r = a0 /\ f_a1 r = a1 /\
+            (forall c0 c1, same_assets a0 a1 c0 c1 = false -> reg_find (w_reg w') c0 c1 = reg_find (w_reg w) c0 c1).
+Proof. exact fac_create_pair_lookup. Qed.
+(* two different unordered asset sets never resolve to the same pair *)
+Theorem C16_world_injective : forall reg a b c d r,
+  reg_find reg a b = Some r -> reg_find reg c d = Some r -> same_assets a b c d = true.
+Proof. exact reg_find_injective. Qed.
+(* the record the factory returns is the pair's own description (RegOK), kept by every creation *)
+Theorem C16_world_consistent : forall w c a0 a1 wl m0 m1 cm ld w',
+  RegOK w -> (forall q, w_next w <= q -> w_pairs w q = None) ->
+  fac_create_pair w c a0 a1 wl m0 m1 cm ld = Ok w' -> RegOK w' /\ (forall q, w_next w' <= q -> w_pairs w' q = None).
+Proof. exact fac_create_pair_RegOK. Qed.
+
+Print Assumptions C16_create_facts.
+Print Assumptions C16_world_duplicate_rejected.
+Print Assumptions C16_world_same_asset_rejected.
+Print Assumptions C16_world_lookup_either_order.
+Print Assumptions C16_world_injective.
+Print Assumptions C16_world_consistent.
 Print Assumptions C16_sym.
 Print Assumptions C16_inj.
 Print Assumptions C16_refuted.
